@@ -282,7 +282,7 @@ def run_history(case):
         enc.append(enc_op(op, row, newtext))
         out.append(status + at + "~" + dump(dirty))
     ds = T.cfg_delims(case["syntax"], case["delims"])
-    req = wire.req("editx", "1" if case["syntax"] == "ios" else "0", wire.enc_str("".join(ds)),
+    req = wire.req("edit7x", "1" if case["syntax"] == "ios" else "0", wire.enc_str("".join(ds)),
                    "1" if case["ignore_blank"] else "0", "1" if auto else "0", str(width_for(case)),
                    wire.enc_strs(case["lines"]), *enc)
     return "#".join(out), req
